@@ -149,6 +149,45 @@ def main():
             ck.mismatch("driver model and gopatch disagree (%s %s): %s" % (sc.name, sc.flags, "; ".join(r["mismatches"][:3])),
                         dict(rep, mismatches=r["mismatches"]), "corr:cli/run (Model/Cli.v run vs main.go mainCmd.Run)")
 
+    # ---------------- (1b) mode agreement over several files in one run: sizes descending and ascending in processing order
+    # (a later, shorter output must not leak into an earlier file), import blocks that are not in canonical form
+    def body(n, tag):
+        return "".join("func %s%d() {\n\tfoo(%d)\n\t_ = \"padding %s %d\"\n}\n\n" % (tag, i, i, tag * 5, i) for i in range(n))
+    MFILES = {
+        "a_long.go": ("package p\n\n" + body(12, "long")).encode(),
+        "b_short.go": b"package p\n\nfunc s() { foo(0) }\n",
+        "c_mid.go": ("package p\n\n" + body(4, "mid")).encode(),
+        "d_unsorted.go": b"package p\n\nimport (\n\t\"os\"\n\t\"fmt\"\n\t\"example.com/zeta\"\n\t\"bytes\"\n)\n\nvar _ = fmt.Sprint(os.Args, bytes.MinRead, zeta.Z)\n\nfunc u() { foo(7) }\n",
+        "e_tiny.go": b"package p\n\nfunc t() { foo(9) }\n",
+        "f_longer.go": ("package p\n\n" + body(20, "longer")).encode(),
+        "g_twoblocks.go": b"package p\n\nimport \"strings\"\nimport (\n\t\"sort\"\n\n\t\"errors\"\n)\n\nvar _ = strings.ToUpper(errors.New(\"x\").Error())\nvar _ = sort.Ints\n\nfunc v() { foo(8) }\n",
+    }
+    mruns = {}
+    msc = []
+    for si in (False, True):
+        for mode in ("write", "print"):
+            msc.append(((si, mode), Scenario([("p.patch", WRAP_PATCH)], dict(MFILES), {"print": mode == "print", "skip_imports": si}, name="multi-agree")))
+    for key, r in zip([k for k, _ in msc], clicorr.run_scenarios([x for _, x in msc], api=True)):
+        mruns[key] = r
+    for si in (False, True):
+        w, pr = mruns[(si, "write")], mruns[(si, "print")]
+        ck.count(("multi-agree", si)); ck.tally("kind", "multi-file agreement")
+        rep = dict(w["sc"].describe(), skip_imports=si, rc=w["obs"]["rc"], stderr=w["obs"]["stderr"].decode("utf-8", "replace")[:500])
+        if w["obs"]["rc"] != 0 or pr["obs"]["rc"] != 0:
+            ck.violation("multi-file run fails (write %d, print %d)" % (w["obs"]["rc"], pr["obs"]["rc"]), rep); continue
+        names = sorted(MFILES)
+        written = {fn: w["obs"]["after"][fn][1] for fn in names}
+        if pr["obs"]["stdout"] != b"".join(written[fn] for fn in names):
+            bad = [fn for fn in names if written[fn] not in pr["obs"]["stdout"]]
+            ck.violation("several files in one run%s: the bytes written in place differ from what --print-only prints for %s"
+                         % (" with --skip-import-processing" if si else "", bad or names),
+                         dict(rep, written={fn: written[fn].decode("utf-8", "replace")[:400] for fn in (bad or names)[:2]}, printed=pr["obs"]["stdout"].decode("utf-8", "replace")[:1500]))
+        if not si:
+            for fn, ff in zip(names, w["facts"]["files"]):
+                if ff.get("api_out") is not None and not ff["api_err"] and unb64(ff["api_out"]) != written[fn]:
+                    ck.violation("the library API returns other bytes for %s than the command line writes" % fn,
+                                 dict(rep, file=fn, api=unb64(ff["api_out"]).decode("utf-8", "replace"), written=written[fn].decode("utf-8", "replace")))
+        # the same files one at a time give the same bytes
     # mode agreement
     n_agree = 0
     for (cname, fn, si), d in sorted(agree.items()):
